@@ -23,4 +23,9 @@ mk c13-id-key-wrong-index    C13 $S/store.go '/func (s \*Store) getURIForID/,/^}
 mk c19-meta-items-start      C19 $S/dsmanager.go 's|^\tentity.Properties\[prefix+":items"\] = 0$|\tentity.Properties[prefix+":items"] = 1|' 'items-counter-starting-at-zero'
 mk c19-meta-batch-empty      C19 $S/dsmanager.go '/func (dsm \*DsManager) storeEntity/,/^}/ s|^\t\tentity,$|\t\tentity, entity,|' 'meta-entity-stored-as-a-one-element-batch'
 mk c19-nsinfo-items-key      C19 $S/store.go 's|NameKey: prefix + ":name", ItemsKey: prefix + ":items",|NameKey: prefix + ":name", ItemsKey: prefix + ":item",|' 'counter-and-name-keys-are-the-ones'
+mk c14-reload-wrong-name    C14 $S/store.go '/func (s \*Store) loadDatasets/,/^}/ s|s.datasets.Store(ds.ID, ds)|s.datasets.Store(ds.SubjectIdentifier, ds)|' 'a-reloaded-dataset-is-bound-to-this-store-and-registered-under-its-own-name'
+mk c14-reload-no-store      C14 $S/store.go '/func (s \*Store) loadDatasets/,/^}/ s|^\t\tds.store = s$|\t\t_ = s|' 'a-reloaded-dataset-is-bound-to-this-store'
+mk c03-scope-wrong-id       C03 $S/store.go '/func (s \*Store) DatasetsToInternalIDs/,/^}/ s|for _, ds := range datasets {|for _, ds := range datasets[:len(datasets)-1] {|' 'DatasetsToInternalIDs'
+mk c04-txn-commits-own-ids  C04 $S/store.go 's|if err := ds.store.commitIDTxn(); err != nil {|_ = ds\n\t\tif err := s.commitIDTxn(); err != nil {|' 'the-id-transaction-committed-is-that-of-the-written-datasets-own-store'
+mk c02-token-below-examined C02 $S/dataset.go 's|^\t\treturn lastSeen + 1, nil$|\t\treturn lastSeen, nil|' 'token'
 git -C /repo worktree remove --force "$wt"
